@@ -18,9 +18,9 @@
 // checks each pick against the set its selection rule allows).
 // trace: h s o<id> = header / STARTTLS request / feature marker written in
 // clear text, H S O<id> = the same inside the TLS layer.
-// outcome: done.<state>.<layer> (layer: 1 when a probe written through the
-// session's connection does not show up in clear on the raw wire) or
-// err.<class>.
+// outcome: done.<state>.<layer>.<hs> (layer: 1 when a probe written through the
+// session's connection does not show up in clear on the raw wire; hs:
+// Session.ConnectionState().HandshakeComplete) or err.<class>.
 //
 // sni: one feature value (explicit config or StartTLS(nil)) reused for a list
 // of sessions <domain>.<kind>; answer: the server name of each ClientHello.
@@ -169,7 +169,7 @@ func (c *ctx) check(sc scenario, tees []int, class string) (base result) {
 		}
 		// ready only on a protected stream
 		if strings.HasPrefix(res.outcome, "done.") {
-			if res.state&uint8(xmpp.Secure) == 0 || strings.HasSuffix(res.outcome, ".0") {
+			if f := strings.Split(res.outcome, "."); res.state&uint8(xmpp.Secure) == 0 || len(f) < 3 || f[2] != "1" {
 				r.Fail("ready-in-clear", teeK+"/"+key, lines, fmt.Sprintf("NewSession returned nil error, state %d, outcome %s, clear-text writes %v", res.state, res.outcome, res.clearEv))
 			}
 		}
@@ -233,8 +233,8 @@ func (c *ctx) check(sc scenario, tees []int, class string) (base result) {
 
 func lastField(outcome string, done bool) string {
 	f := strings.Split(outcome, ".")
-	if done {
-		return f[len(f)-1]
+	if done && len(f) >= 4 {
+		return "layer" + f[2] + ".hs" + f[3]
 	}
 	return strings.Join(f[1:], ".")
 }
@@ -656,7 +656,7 @@ func Run(r *common.Run) error {
 	}
 	c.corpus(all)
 	c.exhaustive(all)
-	c.random(r.Pick(600, 12000), all)
+	c.random(r.Pick(2500, 20000), all)
 	return nil
 }
 
